@@ -300,6 +300,9 @@ def config_dict(ctxs, with_contexts=None):
 # ---------------------------------------------------------------------------------------------
 # running a front end
 # ---------------------------------------------------------------------------------------------
+NAMED = {"time": "obs_time", "z": "depth_m", "lat": "y_deg", "lon": "x_deg"}
+
+
 def run_frontend(fe, tab, cfg_dict, tmpdir=None, twice=False):
     """Returns the list of yielded ContextResults (evaluated).  With `twice`, the SAME stream object is run a second
     time and both lists are returned."""
@@ -308,6 +311,18 @@ def run_frontend(fe, tab, cfg_dict, tmpdir=None, twice=False):
         cfg = cfg_dict if isinstance(cfg_dict, Config) else Config(cfg_dict)
         if fe == "pandas":
             st = PandasStream(make_df(tab))
+        elif fe == "pandas_named":
+            # the axis columns under names of the caller's choosing, next to unrelated columns (one of them called "z")
+            df = make_df(tab).rename(columns=NAMED)
+            df["z"] = "unrelated text"
+            df["station"] = 17
+            st = PandasStream(df, time="obs_time", z="depth_m", lat="y_deg", lon="x_deg")
+        elif fe == "xarray_named":
+            st = XarrayStream(make_ds(tab).rename({k: v for k, v in NAMED.items() if k == "time" or k in tab["axes"]}),
+                              time="obs_time", z="depth_m", lat="y_deg", lon="x_deg")
+        elif fe == "netcdf_named":
+            st = NetcdfStream(make_ds(tab).rename({k: v for k, v in NAMED.items() if k == "time" or k in tab["axes"]}),
+                              time="obs_time", z="depth_m", lat="y_deg", lon="x_deg")
         elif fe == "numpy":
             # the container of the columns varies with the table (deterministically): NaN arrays, or masked arrays with
             # a finite number under the mask
